@@ -11,6 +11,9 @@ pub const MEM_BASE: usize = 192 << 20;
 pub const MEM_PER_BYTE: usize = 4096;
 
 fn with_fuel<T, F: FnOnce() -> T>(cx: &mut Cx, oracle: &str, what: &str, bytes: usize, f: F) -> Result<T, Violation> {
+    if cx.evals > cx.eval_cap {
+        return Err(cx.fail("harness", "cut-short-while-minimising", String::new()));
+    }
     let fuel = FUEL_PER_BYTE * (bytes as u64 + 64);
     a2lfile::verif_hooks::set_fuel(Some(fuel));
     crate::memseam::reset();
